@@ -1,30 +1,37 @@
 /* C06 harness: acknowledgements on real Host / Service objects, driven through the production entry
- * points: the registered API actions `acknowledge-problem` / `remove-acknowledgement`
- * (ApiActions::AcknowledgeProblem / RemoveAcknowledgement), ExternalCommandProcessor::Execute with
- * command lines, the cluster ApiFunctions `event::SetAcknowledgement` / `event::ClearAcknowledgement`
- * with a constructed MessageOrigin, Checkable::ProcessCheckResult, and a virtual clock.  Comments are
- * created by the code under test itself (Comment::AddComment -> ConfigObjectUtility::CreateObject in a
- * scratch data directory).
+ * points: the HTTP dispatcher HttpHandler::ProcessRequest with `POST /v1/actions/acknowledge-problem` /
+ * `remove-acknowledgement` (ActionsHandler -> FilterUtility -> ApiActions), the registered API actions invoked
+ * directly, ExternalCommandProcessor::Execute with command lines, the cluster ApiFunctions
+ * `event::SetAcknowledgement` / `event::ClearAcknowledgement` with a constructed MessageOrigin,
+ * Checkable::ProcessCheckResult, the timer pump Timer::VerifFireDue (comment-expiry timer), fixed downtimes, and a
+ * virtual clock.  Comments are created by the code under test itself (Comment::AddComment ->
+ * ConfigObjectUtility::CreateObject in a scratch data directory).
  *
  *   C <kind h|s> <max> <volatile>
  *   R <state> <execStart> <execEnd> <now>                                   check result
- *   A <via a|e|x|c> <sticky> <notify> <persistent> <expiry> <now>           acknowledge
- *        a = API action (expiry 0: parameter absent), e = ACKNOWLEDGE_*_PROBLEM, x = ACKNOWLEDGE_*_PROBLEM_EXPIRE,
- *        c = cluster event::SetAcknowledgement
- *   X <via a|e|c> <now>                                                     remove acknowledgement
+ *   A <via h|a|e|x|c> <sticky> <notify> <persistent> <expiry> <now>         acknowledge
+ *        h = HTTP request, a = API action invoked directly (expiry 0: parameter absent), e = ACKNOWLEDGE_*_PROBLEM,
+ *        x = ACKNOWLEDGE_*_PROBLEM_EXPIRE, c = cluster event::SetAcknowledgement
+ *   X <via h|a|e|c> <now>                                                   remove acknowledgement
  *   T <now>                                                                 time passes, then the object is looked at
+ *   P <now> <fired>                                                         Timer::VerifFireDue(now); <fired> (0|1: a timer
+ *        ran — only the comment-expiry timer can be due, see Setup) is the implementation's own value, an oracle input
+ *   D <on 0|1> <now>                                                        a fixed downtime in effect is added / removed
  * every line is followed by
  *   | <acc> <ack> <expiry> <handled> <problem> <state> <stype> <attempt> <nSet> <nCleared> <nAckNotif> <nProblemNotif> <comments>
  * where <ack> is Checkable::GetAcknowledgement() *at the virtual time `now`* (the look itself performs the lazy
  * expiry), the n* are the numbers of OnAcknowledgementSet / OnAcknowledgementCleared /
  * OnNotificationsRequested(Acknowledgement) / OnNotificationsRequested(Problem) signals during the operation and the
- * look, and <comments> is the sorted list `entryTime:persistent,...` of the existing comments of entry type
+ * look, and <comments> is the sorted list `entryTime:persistent:expireTime,...` of the existing comments of entry type
  * acknowledgement (`-` if none).
+ *
+ * Times on the lines are relative to the case; the virtual clock runs at `base + t` with a base that grows from case
+ * to case, so that process-global timers see a monotonic clock.
  *
  * Modes:  gen --seed S --tier quick|thorough [--datadir D] [--jobs J] [--len L] [--random N]
  *             exhaustive enumeration + seeded random histories, split over J exec'ed worker processes
  *             (`worker` mode, internal) whose outputs are concatenated in a fixed order
- *         ops FILE [--datadir D]       replay the C/R/A/X/T lines of FILE (text after '|' ignored)
+ *         ops FILE [--datadir D]       replay the operation lines of FILE (text after '|' and the <fired> field ignored)
  *         (env C06_DEBUG=1 with `ops`: Icinga's log on stdout, for diagnosing a failing set-up)
  */
 #include "common.hpp"
@@ -37,13 +44,19 @@
 #include "config/configitembuilder.hpp"
 #include "icinga/apiactions.hpp"
 #include "icinga/comment.hpp"
+#include "icinga/downtime.hpp"
 #include "icinga/externalcommandprocessor.hpp"
 #include "icinga/notification.hpp"
 #include "remote/apiaction.hpp"
 #include "remote/apifunction.hpp"
+#include "remote/apiuser.hpp"
+#include "remote/httphandler.hpp"
+#include "remote/httpserverconnection.hpp"
 #include "remote/endpoint.hpp"
 #include "remote/jsonrpcconnection.hpp"
 #include "remote/messageorigin.hpp"
+#include <boost/asio/spawn.hpp>
+#include <boost/beast/http.hpp>
 #include <algorithm>
 #include <cerrno>
 #include <sys/stat.h>
@@ -56,18 +69,37 @@ static Checkable *l_Obj = nullptr;
 static int l_Set, l_Cleared, l_AckNotif, l_ProblemNotif;
 static MessageOrigin::Ptr l_Origin;
 static long l_Cases = 0;
+static long long l_Base = 0;      /* virtual clock = l_Base + case-relative time */
+static long long l_MaxT = 0;      /* largest relative time of the current case */
+static const long long kBaseStep = 100000;
+static const double kFarFuture = 1e14;
 
 struct Case {
 	Host::Ptr host;
 	Service::Ptr svc;
 	Checkable::Ptr obj;
+	Downtime::Ptr downtime;
 	bool isHost;
 };
+
+static void Clock(long long t)
+{
+	if (t > l_MaxT) l_MaxT = t;
+	SetNow((double)(l_Base + t));
+}
+
+static long long Rel(double abs) /* 0 stays 0 (= none) */
+{
+	return abs == 0 ? 0 : (long long)abs - l_Base;
+}
 
 static Case MakeCase(bool isHost, int mx, bool vol)
 {
 	Case c;
 	c.isHost = isHost;
+	l_Base += kBaseStep + (l_MaxT > kBaseStep / 2 ? l_MaxT : 0);
+	l_MaxT = 0;
+	Clock(0);
 	c.host = new Host();
 	c.host->SetName("h");
 	c.host->SetActive(true);
@@ -102,6 +134,10 @@ static void Finish(Case& c)
 	if (!c.obj)
 		return;
 	l_Obj = nullptr;
+	if (c.downtime) {
+		c.obj->UnregisterDowntime(c.downtime);
+		c.downtime = nullptr;
+	}
 	c.obj->RemoveAllComments();
 	if (c.svc) {
 		c.svc->SetActive(false);
@@ -117,61 +153,114 @@ static void ResetCounters()
 	l_Set = l_Cleared = l_AckNotif = l_ProblemNotif = 0;
 }
 
+struct Cm { long long entry; int persistent; long long expire; };
+
 static void Observe(const Case& c, int acc)
 {
 	int ack = (int)c.obj->GetAcknowledgement(); /* lazy expiry at the virtual time */
 	int handled = c.obj->GetHandled() ? 1 : 0;
 	int problem = c.obj->GetProblem() ? 1 : 0;
-	long long expiry = (long long)c.obj->GetAcknowledgementExpiry();
-	std::vector<std::pair<long long, int>> cm;
+	long long expiry = Rel(c.obj->GetAcknowledgementExpiry());
+	std::vector<Cm> cm;
 	for (const Comment::Ptr& comment : c.obj->GetComments()) {
 		if (comment->GetEntryType() == CommentAcknowledgement)
-			cm.emplace_back((long long)comment->GetEntryTime(), comment->GetPersistent() ? 1 : 0);
+			cm.push_back({ Rel(comment->GetEntryTime()), comment->GetPersistent() ? 1 : 0, Rel(comment->GetExpireTime()) });
 	}
-	std::sort(cm.begin(), cm.end());
+	std::sort(cm.begin(), cm.end(), [](const Cm& a, const Cm& b) {
+		if (a.entry != b.entry) return a.entry < b.entry;
+		if (a.persistent != b.persistent) return a.persistent < b.persistent;
+		return a.expire < b.expire;
+	});
 	printf(" | %d %d %lld %d %d %d %d %ld %d %d %d %d ", acc, ack, expiry, handled, problem,
 		(int)c.obj->GetStateRaw(), (int)c.obj->GetStateType(), (long)c.obj->GetCheckAttempt(),
 		l_Set, l_Cleared, l_AckNotif, l_ProblemNotif);
 	if (cm.empty())
 		printf("-");
 	for (size_t i = 0; i < cm.size(); i++)
-		printf("%s%lld:%d", i ? "," : "", cm[i].first, cm[i].second);
+		printf("%s%lld:%d:%lld", i ? "," : "", cm[i].entry, cm[i].persistent, cm[i].expire);
 	printf("\n");
+}
+
+/* ---- HTTP layer (as harness/c18.cpp): a whole request through the production dispatcher ---- */
+static boost::asio::io_context l_Io;
+static Shared<AsioTlsStream>::Ptr l_Stream;
+static HttpServerConnection::Ptr l_Conn;
+static ApiUser::Ptr l_User;
+
+static void InitHttp()
+{
+	namespace asio = boost::asio;
+	using tcp = asio::ip::tcp;
+	static asio::ssl::context ssl(asio::ssl::context::tls);
+	static tcp::acceptor acc(l_Io, tcp::endpoint(asio::ip::address_v4::loopback(), 0));
+	static tcp::socket peer(l_Io);
+	l_Stream = Shared<AsioTlsStream>::Make(l_Io, ssl);
+	l_Stream->lowest_layer().connect(acc.local_endpoint());
+	acc.accept(peer);
+	l_Conn = new HttpServerConnection("verif", false, l_Stream);
+	l_User = new ApiUser();
+	l_User->SetName("verif");
+	l_User->SetPermissions(new Array({ String("actions/*") }));
+}
+
+/* POST /v1/actions/<action> with a JSON body; returns the HTTP status */
+static int HttpAction(const Case& c, const char *action, const Dictionary::Ptr& body)
+{
+	namespace http = boost::beast::http;
+	body->Set("type", c.isHost ? "Host" : "Service");
+	body->Set(c.isHost ? "host" : "service", c.isHost ? "h" : "h!s");
+	http::request<http::string_body> req{http::verb::post, std::string("/v1/actions/") + action, 11};
+	req.set(http::field::accept, "application/json");
+	req.body() = JsonEncode(body).GetData();
+	req.prepare_payload();
+	http::response<http::string_body> resp;
+	bool crashed = false;
+	IoEngine::SpawnCoroutine(l_Io, [&](boost::asio::yield_context yc) {
+		try { HttpHandler::ProcessRequest(*l_Stream, l_User, req, resp, yc, *l_Conn); } catch (const std::exception&) { crashed = true; }
+	});
+	l_Io.run();
+	l_Io.restart();
+	return crashed ? 599 : (int)resp.result_int();
 }
 
 static void DoResult(const Case& c, int state, long long execStart, long long execEnd, long long now)
 {
-	SetNow((double)now);
+	Clock(now);
 	ResetCounters();
 	printf("R %d %lld %lld %lld", state, execStart, execEnd, now);
-	CheckResult::Ptr cr = MakeCr((ServiceState)state, (double)execStart, (double)execEnd, true);
+	CheckResult::Ptr cr = MakeCr((ServiceState)state, (double)(l_Base + execStart), (double)(l_Base + execEnd), true);
 	auto res = c.obj->ProcessCheckResult(cr);
 	Observe(c, res == Checkable::ProcessingResult::Ok ? 1 : 0);
 }
 
 static void DoAck(const Case& c, char via, int sticky, int notify, int persistent, long long expiry, long long now)
 {
-	SetNow((double)now);
+	Clock(now);
 	ResetCounters();
 	printf("A %c %d %d %d %lld %lld", via, sticky, notify, persistent, expiry, now);
 	int acc = 0;
-	if (via == 'a') {
+	long long absExpiry = expiry != 0 ? l_Base + expiry : 0;
+	if (via == 'a' || via == 'h') {
 		Dictionary::Ptr params = new Dictionary({
 			{ "author", "verif" }, { "comment", "ack" },
 			{ "sticky", sticky != 0 }, { "notify", notify != 0 }, { "persistent", persistent != 0 }
 		});
 		if (expiry != 0)
-			params->Set("expiry", (double)expiry);
-		Dictionary::Ptr r = ApiAction::GetByName("acknowledge-problem")->Invoke(c.obj, params);
-		acc = ((int)(double)r->Get("code") == 200) ? 1 : 0;
+			params->Set("expiry", (double)absExpiry);
+		if (via == 'h') {
+			acc = HttpAction(c, "acknowledge-problem", params) == 200 ? 1 : 0;
+		} else {
+			Dictionary::Ptr r = ApiAction::GetByName("acknowledge-problem")->Invoke(c.obj, params);
+			acc = ((int)(double)r->Get("code") == 200) ? 1 : 0;
+		}
 	} else if (via == 'e' || via == 'x') {
 		std::ostringstream line;
-		line << "[" << now << "] ACKNOWLEDGE_" << (c.isHost ? "HOST" : "SVC") << "_PROBLEM" << (via == 'x' ? "_EXPIRE" : "") << ";h;";
+		line << "[" << (l_Base + now) << "] ACKNOWLEDGE_" << (c.isHost ? "HOST" : "SVC") << "_PROBLEM" << (via == 'x' ? "_EXPIRE" : "") << ";h;";
 		if (!c.isHost)
 			line << "s;";
 		line << (sticky ? 2 : 1) << ";" << notify << ";" << persistent << ";";
 		if (via == 'x')
-			line << expiry << ";";
+			line << absExpiry << ";";
 		line << "verif;ack";
 		try {
 			ExternalCommandProcessor::Execute(line.str());
@@ -183,7 +272,7 @@ static void DoAck(const Case& c, char via, int sticky, int notify, int persisten
 		Dictionary::Ptr params = new Dictionary({
 			{ "host", "h" }, { "author", "verif" }, { "comment", "ack" },
 			{ "acktype", sticky ? 2 : 1 }, { "notify", notify != 0 }, { "persistent", persistent != 0 },
-			{ "expiry", (double)expiry }, { "change_time", (double)now }
+			{ "expiry", (double)absExpiry }, { "change_time", (double)(l_Base + now) }
 		});
 		if (!c.isHost)
 			params->Set("service", "s");
@@ -198,20 +287,23 @@ static void DoAck(const Case& c, char via, int sticky, int notify, int persisten
 
 static void DoRemove(const Case& c, char via, long long now)
 {
-	SetNow((double)now);
+	Clock(now);
 	ResetCounters();
 	printf("X %c %lld", via, now);
 	if (via == 'a') {
 		Dictionary::Ptr params = new Dictionary({ { "author", "verif" } });
 		ApiAction::GetByName("remove-acknowledgement")->Invoke(c.obj, params);
+	} else if (via == 'h') {
+		Dictionary::Ptr params = new Dictionary({ { "author", "verif" } });
+		HttpAction(c, "remove-acknowledgement", params);
 	} else if (via == 'e') {
 		std::ostringstream line;
-		line << "[" << now << "] REMOVE_" << (c.isHost ? "HOST" : "SVC") << "_ACKNOWLEDGEMENT;h";
+		line << "[" << (l_Base + now) << "] REMOVE_" << (c.isHost ? "HOST" : "SVC") << "_ACKNOWLEDGEMENT;h";
 		if (!c.isHost)
 			line << ";s";
 		ExternalCommandProcessor::Execute(line.str());
 	} else if (via == 'c') {
-		Dictionary::Ptr params = new Dictionary({ { "host", "h" }, { "author", "verif" }, { "change_time", (double)now } });
+		Dictionary::Ptr params = new Dictionary({ { "host", "h" }, { "author", "verif" }, { "change_time", (double)(l_Base + now) } });
 		if (!c.isHost)
 			params->Set("service", "s");
 		ApiFunction::GetByName("event::ClearAcknowledgement")->Invoke(l_Origin, params);
@@ -224,9 +316,45 @@ static void DoRemove(const Case& c, char via, long long now)
 
 static void DoAdvance(const Case& c, long long now)
 {
-	SetNow((double)now);
+	Clock(now);
 	ResetCounters();
 	printf("T %lld", now);
+	Observe(c, 1);
+}
+
+static void DoPump(const Case& c, long long now)
+{
+	Clock(now);
+	ResetCounters();
+	int fired = Timer::VerifFireDue((double)(l_Base + now)) > 0 ? 1 : 0;
+	printf("P %lld %d", now, fired);
+	Observe(c, 1);
+}
+
+static void DoDowntime(Case& c, int on, long long now)
+{
+	Clock(now);
+	ResetCounters();
+	printf("D %d %lld", on, now);
+	if (on && !c.downtime) {
+		/* a fixed downtime that is in effect for as long as it is registered (constructed directly, as
+		 * test/icinga-checkresult.cpp does) */
+		Downtime::Ptr dt = new Downtime();
+		dt->SetHostName("h");
+		if (!c.isHost)
+			dt->SetServiceName("s");
+		dt->SetName(c.isHost ? "h!dt" : "h!s!dt");
+		dt->SetFixed(true);
+		dt->SetStartTime((double)l_Base - 3600);
+		dt->SetEndTime(kFarFuture);
+		dt->SetTriggers(new Array());
+		dt->OnAllConfigLoaded();
+		c.obj->RegisterDowntime(dt);
+		c.downtime = dt;
+	} else if (!on && c.downtime) {
+		c.obj->UnregisterDowntime(c.downtime);
+		c.downtime = nullptr;
+	}
 	Observe(c, 1);
 }
 
@@ -236,24 +364,27 @@ static Case Header(bool isHost, int mx, bool vol)
 	return MakeCase(isHost, mx, vol);
 }
 
-/* --- exhaustive part: all sequences of `len` symbols of a 12-symbol alphabet; time advances by 10 per step --- */
-static const int kSymbols = 12;
+/* --- exhaustive part: all sequences of `len` symbols of a 15-symbol alphabet; time advances by 10 per step --- */
+static const int kSymbols = 15;
 
-static void DoSymbol(const Case& c, int sym, long long t)
+static void DoSymbol(Case& c, int sym, long long t)
 {
 	switch (sym) {
 	case 0: DoResult(c, 0, t, t, t); break;
 	case 1: DoResult(c, 2, t, t, t); break;
 	case 2: DoResult(c, 1, t, t, t); break;
 	case 3: DoResult(c, 0, t - 15, t - 15, t); break; /* late result: executed before the previous step */
-	case 4: DoAck(c, 'a', 0, 1, 0, 0, t); break;
+	case 4: DoAck(c, 'h', 0, 1, 0, 0, t); break;
 	case 5: DoAck(c, 'a', 1, 0, 1, t + 15, t); break;
 	case 6: DoAck(c, 'e', 0, 0, 0, 0, t); break;
 	case 7: DoAck(c, 'x', 1, 1, 0, t + 15, t); break;
 	case 8: DoAck(c, 'c', 1, 1, 0, 0, t); break;
-	case 9: DoRemove(c, 'a', t); break;
+	case 9: DoRemove(c, 'h', t); break;
 	case 10: DoRemove(c, 'e', t); break;
 	case 11: DoAdvance(c, t + 8); break;
+	case 12: DoPump(c, t + 8); break;
+	case 13: DoDowntime(c, 1, t); break;
+	case 14: DoDowntime(c, 0, t); break;
 	}
 }
 
@@ -291,8 +422,13 @@ static void Random(Rng& rng, int n, int maxLen)
 		int pAck = 1 + (int)rng.below(5);
 		for (int j = 0; j < len; j++) {
 			t += (long long)rng.below(12);
-			int k = (int)rng.below(10);
-			if (k < 4) {
+			int k = (int)rng.below(12);
+			if (k == 10) {
+				t += (long long)rng.below(40);
+				DoPump(c, t);
+			} else if (k == 11) {
+				DoDowntime(c, (int)rng.below(2), t);
+			} else if (k < 4) {
 				/* result; states biased to problems; execution mostly now, sometimes earlier, sometimes stale */
 				int st = rng.below(3) == 0 ? (int)rng.below(2) : 1 + (int)rng.below(3);
 				if (rng.below(4) == 0) st = (int)c.obj->GetStateRaw(); /* repeat the state */
@@ -307,19 +443,19 @@ static void Random(Rng& rng, int n, int maxLen)
 				DoResult(c, st, es, ee, t);
 				if (es >= lastExec) lastExec = es;
 			} else if (k < 4 + pAck && k < 8) {
-				const char vias[] = { 'a', 'a', 'e', 'x', 'x', 'c', 'c' };
+				const char vias[] = { 'h', 'a', 'e', 'x', 'x', 'c', 'c' };
 				char via = vias[rng.below(sizeof vias)];
 				long long expiry = 0;
 				int m = (int)rng.below(8);
 				if (via != 'e') {
-					if (m < 4) expiry = t + 1 + (long long)rng.below(40);
+					if (m < 4) expiry = t + 1 + (long long)rng.below(rng.coin() ? 40 : 8);
 					else if (m == 4) expiry = t;                       /* not in the future */
 					else if (m == 5) expiry = t - 1 - (long long)rng.below(10);
 				}
 				DoAck(c, via, rng.coin(), rng.coin(), rng.below(3) == 0, expiry, t);
 			} else if (k == 8) {
-				const char vias[] = { 'a', 'e', 'c' };
-				DoRemove(c, vias[rng.below(3)], t);
+				const char vias[] = { 'h', 'a', 'e', 'c' };
+				DoRemove(c, vias[rng.below(4)], t);
 			} else {
 				t += (long long)rng.below(30);
 				DoAdvance(c, t);
@@ -365,6 +501,21 @@ static void Setup(int argc, char **argv)
 		ConfigItem::Ptr item = builder.Compile();
 		item->Register();
 	}
+
+	/* Only the comment-expiry timer may become due when the harness pumps: the two process-global timers that
+	 * Checkable::Start creates once (suppressed notifications — C02's subject —, deadlined executions) are created
+	 * here, under a clock in the far future, so that their next run never comes. */
+	{
+		SetNow(1e15);
+		Host::Ptr dummy = new Host();
+		dummy->SetName("parked");
+		dummy->SetActive(true);
+		dummy->Activate();
+		dummy->SetActive(false);
+		SetNow(0);
+	}
+
+	InitHttp();
 
 	/* a cluster peer: an authenticated connection object (never started) whose identity names a registered endpoint */
 	static boost::asio::ssl::context sslCtx(boost::asio::ssl::context::tlsv12);
@@ -417,6 +568,14 @@ static void RunOps(const char *path)
 			long long now;
 			if (sscanf(line, "T %lld", &now) != 1 || !c.obj) { fprintf(stderr, "bad T line\n"); _exit(2); }
 			DoAdvance(c, now);
+		} else if (line[0] == 'P') {
+			long long now;
+			if (sscanf(line, "P %lld", &now) != 1 || !c.obj) { fprintf(stderr, "bad P line\n"); _exit(2); }
+			DoPump(c, now);
+		} else if (line[0] == 'D') {
+			int on; long long now;
+			if (sscanf(line, "D %d %lld", &on, &now) != 2 || !c.obj) { fprintf(stderr, "bad D line\n"); _exit(2); }
+			DoDowntime(c, on, now);
 		}
 	}
 	Finish(c);
